@@ -9,7 +9,7 @@ package clientinterceptors
 //@ func BreakerInterceptor
 //@   prop C01
 //@   opaque DoWithAcceptable, Join, Target
-//@   ensures [per-target-method-breaker-with-grpc-code-classifier] calls(breaker.DoWithAcceptable) == 1 && arg(breaker.DoWithAcceptable, 0) == ret(path.Join) && arg(breaker.DoWithAcceptable, 2) == codes.Acceptable && result == ret(breaker.DoWithAcceptable) && len(arg(path.Join, 0)) == 2 && arg(path.Join, 0)[1] == method
+//@   ensures [per-target-method-breaker-with-grpc-code-classifier] calls(breaker.DoWithAcceptable) == 1 && arg(breaker.DoWithAcceptable, 0) == ret(path.Join) && arg(breaker.DoWithAcceptable, 2) == codes.Acceptable && result == ret(breaker.DoWithAcceptable) && len(arg(path.Join, 0)) == 2 && arg(path.Join, 0)[1] == method && arg(path.Join, 0)[0] == ret(Target) && calls(path.Join) == 1 && calls(Target) == 1 && arg(Target, 0) == conn
 //@ func BreakerInterceptor$1
 //@   prop C01
 //@   ensures [invoked-once-same-arguments] calls(invoker) == 1 && arg(invoker, 0) == ctx && arg(invoker, 1) == method && arg(invoker, 2) == req && arg(invoker, 3) == reply && arg(invoker, 4) == conn && arg(invoker, 5) == opts && result == ret(invoker)
